@@ -8,6 +8,7 @@ import (
 	"encoding/hex"
 	"encoding/json"
 	"fmt"
+	"go.etcd.io/bbolt"
 	"io"
 	"os"
 	"path/filepath"
@@ -695,7 +696,25 @@ type c17Params struct {
 	LRU     bool `json:"lru"`               // the DSN asks for an LRU cache, which all connections of the file then share
 	Preload bool `json:"preload,omitempty"` // the DSN asks for preloaded data
 	Tiny    bool `json:"tiny,omitempty"`    // with LRU: a cache too small to keep any entry (lrucachesize=10)
+	Broken  bool `json:"broken,omitempty"`  // the file is a bbolt file without index content: every concurrent Open fails; afterwards a valid index is put there
 	Cancel  bool `json:"cancel,omitempty"`  // thread 0 runs a statement under a context that thread 1 cancels at any moment, then runs it again
+}
+
+var c17Broken []byte
+
+// c17BrokenFile: a bbolt database without any updog content.
+func c17BrokenFile(ctx *rt.Ctx) []byte {
+	if c17Broken == nil {
+		p := filepath.Join(ctx.Scratch, "c17-broken.db")
+		db, err := bbolt.Open(p, 0o644, nil)
+		if err != nil {
+			rt.Harnessf("broken file: %v", err)
+		}
+		db.Close()
+		c17Broken, _ = os.ReadFile(p)
+		os.Remove(p)
+	}
+	return c17Broken
 }
 
 func c17Driver() driver.Driver {
@@ -725,6 +744,9 @@ func c17ConcScenario(ctx *rt.Ctx, p c17Params, outcome *string) vsched.Scenario 
 		c17Seq++
 		file := filepath.Join(ctx.Scratch, fmt.Sprintf("c17c-%d.updog", c17Seq))
 		os.WriteFile(file, c17Masters[0], 0o644)
+		if p.Broken {
+			os.WriteFile(file, c17BrokenFile(ctx), 0o644)
+		}
 		dsn := "file:" + file
 		if p.LRU && p.Tiny {
 			dsn += "?lrucache=true&lrucachesize=10"
@@ -858,8 +880,36 @@ func c17ConcScenario(ctx *rt.Ctx, p c17Params, outcome *string) vsched.Scenario 
 				}
 			})
 		}
-		check := func(r *vsched.Result) string {
+		check := func(r *vsched.Result) (v string) {
 			defer os.Remove(file)
+			if p.Broken {
+				// every concurrent Open failed (cleanly); nothing of that may outlive it: the file is released, and once a
+				// valid index lies at the path it opens and answers
+				for t, g := range got {
+					if !strings.HasPrefix(g, "open error: ") {
+						return fmt.Sprintf("thread %d: %q, expected an error from Open (the file is not an index)", t, g)
+					}
+				}
+				if !flk.Free(file) {
+					return "every Open failed but the file is still locked"
+				}
+				os.WriteFile(file, c17Masters[0], 0o644)
+				flk.Sequential(true)
+				defer flk.Sequential(false)
+				defer func() {
+					if r := recover(); r != nil {
+						v = fmt.Sprintf("opening the valid index that replaced the broken file: %v", r)
+					}
+				}()
+				if g := use(0); g != want {
+					return fmt.Sprintf("after the failed concurrent opens a valid index was put at the path: %q, expected rows %q", g, want)
+				}
+				if !flk.Free(file) {
+					return "all connections are closed but the file is still locked"
+				}
+				*outcome = fmt.Sprint(len(r.Steps))
+				return ""
+			}
 			for t, g := range got {
 				w := want
 				if p.Args {
@@ -910,9 +960,9 @@ func c17Run(ctx *rt.Ctx) []*rt.Violation {
 		bound  int
 		shards int // level-1 subtrees of the schedule tree are dealt to this many worker processes
 	}
-	concs := []cc{{c17Params{Threads: 2}, 2, 2}, {c17Params{Threads: 2, Mixed: true}, 2, 5}, {c17Params{Threads: 3}, 1, 1}, {c17Params{Threads: 2, Args: true}, 2, 2}, {c17Params{Threads: 3, Args: true}, 1, 1}, {c17Params{Threads: 2, LRU: true}, 2, 2}, {c17Params{Threads: 2, Args: true, LRU: true}, 1, 1}, {c17Params{Threads: 2, Preload: true}, 1, 1}, {c17Params{Threads: 3, Args: true, Preload: true}, 1, 1}, {c17Params{Threads: 2, LRU: true, Tiny: true}, 2, 2}, {c17Params{Threads: 2, Args: true, Cancel: true}, 2, 2}}
+	concs := []cc{{c17Params{Threads: 2}, 2, 2}, {c17Params{Threads: 2, Mixed: true}, 2, 5}, {c17Params{Threads: 3}, 1, 1}, {c17Params{Threads: 2, Args: true}, 2, 2}, {c17Params{Threads: 3, Args: true}, 1, 1}, {c17Params{Threads: 2, LRU: true}, 2, 2}, {c17Params{Threads: 2, Args: true, LRU: true}, 1, 1}, {c17Params{Threads: 2, Preload: true}, 1, 1}, {c17Params{Threads: 3, Args: true, Preload: true}, 1, 1}, {c17Params{Threads: 2, LRU: true, Tiny: true}, 2, 2}, {c17Params{Threads: 2, Args: true, Cancel: true}, 2, 2}, {c17Params{Threads: 2, Broken: true}, 2, 2}, {c17Params{Threads: 2, Broken: true, Preload: true}, 1, 1}}
 	if ctx.Thorough() {
-		concs = []cc{{c17Params{Threads: 2}, 4, 6}, {c17Params{Threads: 2, Mixed: true}, 3, 8}, {c17Params{Threads: 3}, 2, 6}, {c17Params{Threads: 3, Mixed: true}, 2, 8}, {c17Params{Threads: 2, Args: true}, 3, 4}, {c17Params{Threads: 3, Args: true}, 2, 6}, {c17Params{Threads: 2, LRU: true}, 3, 4}, {c17Params{Threads: 3, Args: true, LRU: true}, 1, 2}, {c17Params{Threads: 2, Preload: true}, 3, 4}, {c17Params{Threads: 3, Args: true, Preload: true}, 2, 6}, {c17Params{Threads: 3, LRU: true, Tiny: true}, 2, 6}, {c17Params{Threads: 2, Args: true, Cancel: true}, 4, 6}}
+		concs = []cc{{c17Params{Threads: 2}, 4, 6}, {c17Params{Threads: 2, Mixed: true}, 3, 8}, {c17Params{Threads: 3}, 2, 6}, {c17Params{Threads: 3, Mixed: true}, 2, 8}, {c17Params{Threads: 2, Args: true}, 3, 4}, {c17Params{Threads: 3, Args: true}, 2, 6}, {c17Params{Threads: 2, LRU: true}, 3, 4}, {c17Params{Threads: 3, Args: true, LRU: true}, 1, 2}, {c17Params{Threads: 2, Preload: true}, 3, 4}, {c17Params{Threads: 3, Args: true, Preload: true}, 2, 6}, {c17Params{Threads: 3, LRU: true, Tiny: true}, 2, 6}, {c17Params{Threads: 2, Args: true, Cancel: true}, 4, 6}, {c17Params{Threads: 2, Broken: true}, 4, 6}, {c17Params{Threads: 3, Broken: true}, 2, 6}}
 	}
 	var conc []rt.Job
 	for _, c := range concs {
@@ -948,10 +998,10 @@ func c17Run(ctx *rt.Ctx) []*rt.Violation {
 		vs = append(vs, o.vs...)
 	}
 	vs = append(vs, rt.Collect(ctx, <-done, nil)...)
-	ctx.Cov.Note("sequential", fmt.Sprintf("BFS over histories of {Open(dsn) for 2 files x 2 option strings, Query, Prepare+Stmt.Query, two overlapping Queries, Close} through database/sql with the registered driver, <=3 live handles, pool size in {unlimited,1}, depth %d, states merged on (handle pool stats, generic dump of all driver fields), each level expanded by parallel worker processes; file 1 is addressed through a non-canonical path spelling; plus every history to depth 5 over the reduced alphabet {3 DSNs, query, close, <=2 handles} WITHOUT state merging (state kept outside the driver object cannot hide there)", depth))
+	ctx.Cov.Note("sequential", fmt.Sprintf("BFS over histories of {Open(dsn) for 2 files x 2 option strings (file 0 also under a second spelling of its path), Query, Prepare+Stmt.Query, two overlapping Queries, Close} through database/sql with the registered driver, <=3 live handles, pool size in {unlimited,1}, depth %d, states merged on (handle pool stats, generic dump of all driver fields), each level expanded by parallel worker processes; file 1 is addressed through a non-canonical path spelling; plus every history to depth 5 over the reduced alphabet {3 DSNs, query, close, <=2 handles} WITHOUT state merging (state kept outside the driver object cannot hide there)", depth))
 	var cdesc []string
 	for _, c := range concs {
-		cdesc = append(cdesc, fmt.Sprintf("%d threads%s%s%s: <=%d preemptions, %d shard(s)", c.p.Threads, map[bool]string{true: " +reopen"}[c.p.Mixed], map[bool]string{true: " +different arguments"}[c.p.Args], map[bool]string{true: " +LRU option"}[c.p.LRU]+map[bool]string{true: " +preload option"}[c.p.Preload]+map[bool]string{true: " (cache too small for any entry)"}[c.p.Tiny]+map[bool]string{true: " (thread 0: a statement under a context that thread 1 cancels, then the same statement again)"}[c.p.Cancel], c.bound, c.shards))
+		cdesc = append(cdesc, fmt.Sprintf("%d threads%s%s%s%s: <=%d preemptions, %d shard(s)", c.p.Threads, map[bool]string{true: " +reopen"}[c.p.Mixed], map[bool]string{true: " +the file is a bbolt file without index content (every Open fails; then a valid index is put there and opened)"}[c.p.Broken], map[bool]string{true: " +different arguments"}[c.p.Args], map[bool]string{true: " +LRU option"}[c.p.LRU]+map[bool]string{true: " +preload option"}[c.p.Preload]+map[bool]string{true: " (cache too small for any entry)"}[c.p.Tiny]+map[bool]string{true: " (thread 0: a statement under a context that thread 1 cancels, then the same statement again)"}[c.p.Cancel], c.bound, c.shards))
 	}
 	ctx.Cov.Note("concurrent", fmt.Sprintf("%v: threads each doing driver.Open -> QueryContext -> Close on one file (what database/sql does on concurrent first use of a fresh handle), preemption-bounded DFS, file-lock waits are scheduling points, race detector live", cdesc))
 	ctx.Cov.Note("rule", "sequential: every transition replayed on fresh file copies, checks rows, no panic, no lock wait (a wait in a single-threaded history is a hang), file released after last Close; concurrent: no deadlock/panic/race, rows correct, file free at the end")
